@@ -86,7 +86,10 @@ pub(crate) struct FlushWorker<T: Types> {
 
 impl<T: Types> FlushWorker<T> {
     /// When starting, there is at most one open chunk file that is not sync.
-    pub(crate) fn spawn(self) {
+    ///
+    /// Returns the handle of the worker thread, so that the owner can wait for
+    /// it to quit after closing the request channel.
+    pub(crate) fn spawn(self) -> std::thread::JoinHandle<()> {
         #[cfg(feature = "verif-hooks")]
         let verif_worker_id = crate::verif_hooks::next_id();
         #[cfg(feature = "verif-hooks")]
@@ -104,7 +107,7 @@ impl<T: Types> FlushWorker<T> {
                 };
                 self.run();
             })
-            .expect("Failed to start sync worker thread");
+            .expect("Failed to start sync worker thread")
     }
 
     pub(crate) fn new(
